@@ -46,6 +46,7 @@ type Task struct {
 	hits   int
 	delays int // window delays already spent on this task
 	holds  int // lock holds already spent on this task
+	stallStep int // > 0: not enabled before the scheduler's step counter reaches this value
 
 	blockedSince time.Time // first moment the task was found disabled (zero: not blocked)
 	blockedStep  int       // scheduler step at that moment (orders tasks blocked at the same instant)
@@ -100,6 +101,7 @@ type Sim struct {
 	// run (code that treats "busy" as "somebody else is doing my work", TryLock shortcuts, needs exactly this).
 	pHoldDen int
 	holdFor  time.Duration
+	stallSteps int // > 0: half of the window delays are measured in scheduling steps of the other tasks (1..stallSteps)
 	pStallNum     int // probability (per 1000) that an enabled task is stalled for a quantum
 	writerPending bool
 
@@ -283,9 +285,17 @@ func (s *Sim) Hit(site int) {
 	if s.pDelayDen > 0 && t.delays < 2 && site >= 0 && site < len(verifhook.Sites) && verifhook.Sites[site].Kind == "unlocked" &&
 		mix64(s.seed^0xd1a7, verifhook.Sites[site].File, uint64(verifhook.Sites[site].Line))%uint64(s.pDelayDen) == 0 {
 		t.delays++
-		t.stallUntil = time.Now().Add(s.delayFor)
-		s.stats["delay-after-unlock"]++
-		s.tracef("delay %s for %v after unlock @%s", shortKey(t.Key), s.delayFor, s.siteStr(site))
+		if h2 := mix64(s.seed^0x57a1, verifhook.Sites[site].File, uint64(verifhook.Sites[site].Line)+uint64(t.hits)<<20); s.stallSteps > 0 && h2&1 == 1 {
+			// held back for a number of OTHER tasks' scheduling steps rather than for simulated time: the others are
+			// then caught in the middle of what they are doing (a store half switched, a map half copied)
+			t.stallStep = s.steps + 1 + int((h2>>8)%uint64(s.stallSteps))
+			s.stats["step-stall-after-unlock"]++
+			s.tracef("stall %s for %d steps after unlock @%s", shortKey(t.Key), t.stallStep-s.steps, s.siteStr(site))
+		} else {
+			t.stallUntil = time.Now().Add(s.delayFor)
+			s.stats["delay-after-unlock"]++
+			s.tracef("delay %s for %v after unlock @%s", shortKey(t.Key), s.delayFor, s.siteStr(site))
+		}
 		s.park(t, kHit, site)
 		return
 	}
@@ -458,8 +468,9 @@ func (s *Sim) lockBusy(t *Task) bool {
 }
 
 type schedView struct {
-	parked  []*Task
-	enabled []*Task
+	parked      []*Task
+	enabled     []*Task
+	stepStalled bool // some parked task is only waiting for other tasks' steps
 }
 
 //go:norace
@@ -528,6 +539,14 @@ func (s *Sim) view() schedView {
 				en = false
 			} else {
 				t.stallUntil = time.Time{}
+			}
+		}
+		if en && t.stallStep > 0 {
+			if s.steps < t.stallStep {
+				en = false
+				v.stepStalled = true
+			} else {
+				t.stallStep = 0
 			}
 		}
 		if en {
@@ -644,6 +663,13 @@ func (s *Sim) Run(stop func(v schedView) bool, deadline time.Duration) error {
 				s.tracef("run %s %s @%s", shortKey(t.Key), kindNames[t.kind], s.siteStr(t.site))
 			}
 			s.release(t, 0)
+			continue
+		}
+		if v.stepStalled {
+			// only step-stalled tasks are left: nobody can take the steps they are waiting for
+			for _, t := range v.parked {
+				t.stallStep = 0
+			}
 			continue
 		}
 		// nothing runnable: let simulated time pass until a task parks or the deadline
